@@ -93,7 +93,7 @@ def chromid(name):
     raise ValueError(f"not a generated chromosome name: {name!r}")
 
 
-def bins_df(bins, nchroms=None, categorical=True):
+def bins_df(bins, nchroms=None, categorical=True, plain=False):
     """[[chromid,start,end],…] → the DataFrame cooler expects"""
     if nchroms is None:
         nchroms = (max(b[0] for b in bins) + 1) if bins else 0
@@ -105,6 +105,34 @@ def bins_df(bins, nchroms=None, categorical=True):
     })
     if categorical:
         df["chrom"] = pd.Categorical(df["chrom"], categories=names, ordered=True)
+    if plain:
+        return df            # the caller reads the row labels as bin ids
+    return relabel_rows(df, sum(b[1] + b[2] for b in bins) + len(bins), groups=[b[0] for b in bins])
+
+
+FRAME_INDEX_FORMS = ("range", "range", "per-group restart (duplicated labels)", "reversed", "offset", "constant")
+
+
+def relabel_rows(df, key, groups=None):
+    """Row LABELS of a frame handed to cooler are presentation, not content: the same table is presented with pandas' default
+    RangeIndex, with labels restarting at 0 in every chromosome (what `pd.concat` of per-chromosome frames yields: duplicated
+    labels), reversed, offset, or all equal — chosen deterministically from the content (`key`) so that a case replays exactly."""
+    n = len(df)
+    form = FRAME_INDEX_FORMS[key % len(FRAME_INDEX_FORMS)] if os.environ.get("VERIF_PLAIN_FRAMES") != "1" else "range"
+    if form == "range" or n == 0:
+        return df
+    if form.startswith("per-group") and groups is not None:
+        lab, seen = [], {}
+        for g in groups:
+            lab.append(seen.get(g, 0))
+            seen[g] = seen.get(g, 0) + 1
+        df.index = pd.Index(lab, dtype=np.int64)
+    elif form == "reversed":
+        df.index = pd.Index(range(n - 1, -1, -1), dtype=np.int64)
+    elif form == "offset":
+        df.index = pd.RangeIndex(100, 100 + n)
+    else:
+        df.index = pd.Index([7] * n, dtype=np.int64)
     return df
 
 
@@ -194,7 +222,7 @@ def pixels_df(pixels, dtype="int32", extra=None):
     if extra:
         for k, vals in extra.items():
             d[k] = np.array(vals)
-    return pd.DataFrame(d)
+    return relabel_rows(pd.DataFrame(d), sum(p[0] + 2 * p[1] for p in pixels) + len(pixels), groups=[p[0] for p in pixels])
 
 
 def write_cooler(path, bins, pixels, symm=True, **kw):
